@@ -228,6 +228,106 @@ theorem accepted_via_spec (cfg : Cfg) (ms : List Msg) : (accepted cfg Recip.fres
   rw [← tracc_strace]
   exact spec_accept_at_most_once cfg.window cfg.b12 _ (recv_conforms_spec cfg ms)
 
+/-! ### Datagrams: ciphertext absent or not longer than the AEAD tag (seed C15-11) -/
+
+/-- A protected message without any payload is dropped before anything is looked at. -/
+theorem no_payload_dropped (cfg : Cfg) (r : Recip) (m : Msg) : stepD cfg r ⟨m, 0⟩ = (r, .drop) := by
+  simp [stepD]
+
+theorem short_ciphertext_forged (d : Dgram) (hw : d.wf) (hl : d.clen ≤ TAG_LEN) : d.msg.authentic = false := by
+  cases h : d.msg.authentic with
+  | false => rfl
+  | true => have := hw h; omega
+
+/-- **A message whose ciphertext is not longer than the AEAD tag (0..8 bytes) is never accepted** … -/
+theorem short_ciphertext_never_accepted (cfg : Cfg) (r : Recip) (d : Dgram) (hw : d.wf) (hl : d.clen ≤ TAG_LEN) :
+    (stepD cfg r d).2 ≠ .acc := by
+  unfold stepD
+  split
+  · intro h; cases h
+  · exact forged_never_accepted cfg r d.msg (short_ciphertext_forged d hw hl)
+
+/-- … **and leaves the replay window and sequence state exactly as before** (request or response, any claimed Partial
+IV, every `Sane` state). -/
+theorem short_ciphertext_no_trace (cfg : Cfg) (r : Recip) (d : Dgram) (hw : d.wf) (hl : d.clen ≤ TAG_LEN)
+    (hs : Sane r.view) : (stepD cfg r d).1.view = r.view := by
+  unfold stepD
+  split
+  · rfl
+  · exact forgery_no_trace cfg r d.msg (short_ciphertext_forged d hw hl) hs
+
+theorem short_ciphertext_no_trace_reachable (cfg : Cfg) (ds : List Dgram) (d : Dgram) (hw : d.wf)
+    (hl : d.clen ≤ TAG_LEN) :
+    (stepD cfg (finalD cfg Recip.fresh ds) d).1.view = (finalD cfg Recip.fresh ds).view := by
+  apply short_ciphertext_no_trace cfg _ d hw hl
+  rw [finalD_eq]
+  exact reachable_sane cfg _
+
+/-- `accept_at_most_once` over histories of datagrams of any ciphertext length. -/
+theorem accept_at_most_once_dgram (cfg : Cfg) (ds : List Dgram) : (acceptedD cfg Recip.fresh ds).Nodup := by
+  rw [acceptedD_eq]
+  exact accept_at_most_once cfg _
+
+/-! ### Which nonce a message is protected with (seed C15-12)
+
+Not proved over histories (checked per line: the driver prints `S distinct`, the oracle of props/C15.py judges the
+implementation's own (key, nonce) pairs):
+  theorem nonce_never_reused (cfg) (ops : List NOp) (hb : cfg.b12 = false) (hl : ops.length < 2^63) :
+      (nonces (nrun cfg Endp.fresh ops)).Nodup
+Proved: the step facts it rests on — every notification, every response to an Observe request, every request takes
+the Sender Sequence Number (which then increases), and a request that fails authentication never changes the nonce a
+response is protected with. -/
+
+/-- the Partial IV taken from the Sender Sequence Number is the current one, and the counter moves on -/
+theorem ownPiv_fresh (s : Snd) (h : s.seq < 2 ^ 64 - 1) :
+    ((ownPiv s).2 = none ∨ (ownPiv s).2 = some s.seq) ∧ (ownPiv s).1.seq = s.seq + 1 := by
+  have h1 : (s.seq + 1) % 2 ^ 64 = s.seq + 1 := Nat.mod_eq_of_lt (by omega)
+  unfold ownPiv protect
+  simp only [h1]
+  repeat' split
+  all_goals simp
+
+/-- **A notification is always protected with a fresh Partial IV of its own** (never with the nonce of the request). -/
+theorem notification_fresh_piv (cfg : Cfg) (e : Endp) (t : Nat) (sendPiv : Bool) (h : e.snd.seq < 2 ^ 64 - 1) :
+    (nstep cfg e (.sendRsp t true sendPiv)).2 = .err ∨
+    ((nstep cfg e (.sendRsp t true sendPiv)).2 = .sent (some e.snd.seq) (.own e.snd.seq) ∧
+      (nstep cfg e (.sendRsp t true sendPiv)).1.snd.seq = e.snd.seq + 1) := by
+  obtain ⟨h1, h2⟩ := ownPiv_fresh e.snd h
+  simp only [nstep]
+  cases ha : e.assocs t with
+  | none => left; rfl
+  | some a =>
+    simp only [Bool.true_or, if_true]
+    rcases h1 with h1 | h1
+    · left; simp [h1]
+    · right; simp [h1, h2]
+
+/-- So is every response (with or without Observe option) to an Observe request: its association is kept, the nonce of
+the request could otherwise be used twice (fix ae365ed). -/
+theorem observe_response_fresh_piv (cfg : Cfg) (e : Endp) (t : Nat) (a : Assoc) (obsOpt sendPiv : Bool)
+    (ha : e.assocs t = some a) (ho : a.observe = true) (h : e.snd.seq < 2 ^ 64 - 1) :
+    (nstep cfg e (.sendRsp t obsOpt sendPiv)).2 = .err ∨
+    ((nstep cfg e (.sendRsp t obsOpt sendPiv)).2 = .sent (some e.snd.seq) (.own e.snd.seq) ∧
+      (nstep cfg e (.sendRsp t obsOpt sendPiv)).1.snd.seq = e.snd.seq + 1) := by
+  obtain ⟨h1, h2⟩ := ownPiv_fresh e.snd h
+  simp only [nstep, ha, ho]
+  have hc : (obsOpt || (sendPiv || (true && !obsOpt))) = true := by cases obsOpt <;> cases sendPiv <;> rfl
+  simp only [hc, if_true]
+  rcases h1 with h1 | h1
+  · left; simp [h1]
+  · right; simp [h1, h2]
+
+/-- A request that fails authentication changes no association: the nonce a response is protected with is never one
+an attacker chose (fix 9631fdc). -/
+theorem forged_request_no_association (cfg : Cfg) (e : Endp) (t : Nat) (ev : Ev) (obs : Bool) (h : ev.authentic = false) :
+    (nstep cfg e (.reqIn t ev obs)).1.assocs = e.assocs := by
+  have hd : decrypted cfg e.rcp ev = false := by
+    unfold decrypted
+    simp only [h]
+    split <;> rfl
+  have hacc : (recv cfg e.rcp ev).2 ≠ .acc := forged_never_accepted cfg e.rcp (.req ev) h
+  simp [nstep, hd, hacc]
+
 /-! ### Non-vacuity: concrete histories (the minimal witnesses of the defects fixed in libcoap, see design/C15.md) -/
 
 private def a (p : Nat) : Msg := .req ⟨true, p, .none⟩
@@ -290,5 +390,22 @@ example : recorded ⟨3, false⟩ Recip.fresh [n 7, a 10, n 12, y 11] = [10, 12]
 -- sender: ssn_freq 4, crash after PIV 5 (stored value 8), resume at 8
 example : pivs (srun (SSys.start 4 0) [.protect, .protect, .protect, .protect, .protect, .protect, .crash 4, .protect])
     = [0, 1, 2, 3, 4, 5, 8] := by decide
+
+
+/-! Datagram layer and nonces. -/
+-- forged requests / responses without payload, with 3 and 8 bytes of ciphertext between genuine messages: no trace
+example : (finalD ⟨32, false⟩ Recip.fresh [⟨a 0, 14⟩, ⟨x 50, 0⟩, ⟨x 50, 3⟩, ⟨y 51, 8⟩, ⟨a 1, 14⟩]).view = ⟨false, 1, 3⟩ ∧
+    acceptedD ⟨32, false⟩ Recip.fresh [⟨a 0, 14⟩, ⟨x 50, 0⟩, ⟨x 50, 3⟩, ⟨y 51, 8⟩, ⟨a 1, 14⟩] = [0, 1] := by decide
+example : (⟨x 50, 3⟩ : Dgram).wf ∧ ¬ (⟨a 50, 3⟩ : Dgram).wf := by
+  constructor <;> simp [Dgram.wf, x, a, Msg.authentic, TAG_LEN]
+-- request 5 (token 0), forged request re-using token 0 claiming 7, response; request 7 (token 1), response: nonces differ
+-- (pinned tree: the first response was protected with the nonce of the forged request, 7, and so was the second)
+example : nonces (nrun ⟨32, false⟩ Endp.fresh [.reqIn 0 ⟨true, 5, .none⟩ false, .reqIn 0 ⟨false, 7, .none⟩ false,
+    .sendRsp 0 false false, .reqIn 1 ⟨true, 7, .none⟩ false, .sendRsp 1 false false]) = [.ofReq 5, .ofReq 7] := by decide
+-- Observe registration, notification, two responses without Observe option, own request: all with the sequence number
+example : nrun ⟨32, false⟩ Endp.fresh [.reqIn 1 ⟨true, 1, .none⟩ true, .sendRsp 1 true false, .sendRsp 1 false false,
+    .sendRsp 1 false false, .sendReq, .sendRsp 2 false false] =
+    [.verdict .acc, .sent (some 0) (.own 0), .sent (some 1) (.own 1), .sent (some 2) (.own 2), .sent (some 3) (.own 3), .err] := by
+  decide
 
 end Coap.C15
